@@ -1002,6 +1002,19 @@ func RunC12(e *core.Env) int {
 			ref := refs[refKey{t.sc, j.Form, 0}]
 			o := c12Run(e, root, sc, form, j.Pre)
 			caseID := fmt.Sprintf("%s/%s/%s/%s", sc.ID, sc.Layout, form.Name, j.Pre.Label)
+			if !o.Res.TimedOut && (o.Res.Exit != ref.Exit || o.Present != ref.Present || !bytes.Equal(o.Out, ref.Out)) {
+				// a disagreement has to REPRODUCE: the property is about a deterministic tool (C13), so a
+				// difference that a second identical run does not show is trouble of the moment (a go list
+				// child failing on a loaded machine), reported as inconclusive, never as a verdict
+				o2 := c12Run(e, root, sc, form, j.Pre)
+				if !o2.Res.TimedOut && o2.Res.Exit == ref.Exit && o2.Present == ref.Present && bytes.Equal(o2.Out, ref.Out) {
+					rep.Eval(1)
+					rep.Count("disagreement_not_reproduced_on_rerun", 1)
+					rep.Inconclusive(fmt.Sprintf("%s: exit %d vs %d on the first run, agreement on an identical second run; stderr of the first: %s", caseID, o.Res.Exit, ref.Exit, core.Trunc(o.Res.Stderr, 200)))
+					continue
+				}
+				o = o2
+			}
 			held := cx.judge(sc, sc.Versions[0], form, j.Pre, ref, o, caseID)
 			rep.Histo("pre_state_class", j.Pre.Class)
 			rep.Histo("invocation_form", form.Name)
